@@ -149,7 +149,7 @@ def _parse_res(path, sr):
                 sr.done = True
 
 
-SRC_FRAME = re.compile(r"#\d+ 0x[0-9a-f]+ in (\w+) [^\n]*?/src/(\w+\.c)")
+SRC_FRAME = re.compile(r"#\d+ (?:0x[0-9a-f]+ in )?(\w+) [^\n]*?/src/(\w+\.c)")
 
 
 def classify_sanitizer(text):
@@ -264,6 +264,24 @@ def run_shards(exe, outdir0, nshards, cases, seed, thorough=False, env_fn=None, 
                     except OSError:
                         pass
                 body += err
+                tsan_blocks = [b for b in re.split(r"(?=WARNING: ThreadSanitizer:)", body) if b.startswith("WARNING: ThreadSanitizer:")]
+                if tsan_blocks:
+                    seen_ts = set()
+                    for b in tsan_blocks:
+                        c = classify_sanitizer(b)
+                        if not c or (c[1], c[2]) in seen_ts:
+                            continue
+                        seen_ts.add((c[1], c[2]))
+                        sr.crashes.append(("%s:tsan:%s:%s" % (prop, c[1], c[2]),
+                                           "ThreadSanitizer report during case %s: %s" % (where, _first_report(b)), cidx, label))
+                    if seen_ts:
+                        restarts += 1
+                        if cidx is None or restarts > max_restarts:
+                            break
+                        start_from = cidx + 1 if cidx >= 0 else 0
+                        if start_from >= cases:
+                            break
+                        continue
                 san = classify_sanitizer(body)
                 if san and san[0] == "ubsan" and re.search(r"/verif/harness/[\w/.]+:\d+:\d+: runtime error", body):
                     raise Inconclusive("undefined behaviour inside the harness itself (harness bug, not a verdict): "
